@@ -253,6 +253,14 @@ func (w *world) persisted(f types.FileContractID, v2 bool) []types.Hash256 {
 	return all[f]
 }
 
+// view renders what a session is handed when it acquires the contract lock: the revision (number, size,
+// whether its Merkle root commits to the roots handed over) and the roots themselves.
+func (w *world) view(rn, fs uint64, merkle types.Hash256, roots []types.Hash256) string {
+	return fmt.Sprintf("vrn=%d vfs=%d vrootok=%d vroots=%s", rn, fs, vhlib.B01(merkle == rhp2.MetaRoot(roots)), vhlib.FmtList(w.rootIDs(roots)))
+}
+
+const noView = "vrn=0 vfs=0 vrootok=1 vroots=[]"
+
 // refok: every root of the list is still stored and referenced (Store.HasSector)
 func (w *world) refok(list []types.Hash256) int {
 	for _, h := range list {
@@ -401,12 +409,13 @@ func (w *world) doRpc1(tr *vhlib.Trace, p opLine, rc racer) {
 	locked, err := w.mgr.Lock(context.Background(), f)
 	if err != nil {
 		tr.Count("rpc1:refused")
-		tr.Line(p.Raw, fmt.Sprintf("lock=refused res=none fired=0 uok=[] %s", w.cobs("", id, false)))
+		tr.Line(p.Raw, fmt.Sprintf("lock=refused res=none fired=0 uok=[] %s %s", noView, w.cobs("", id, false)))
 		return
 	}
 	rc.start()
 	defer rc.wait()
 	defer w.mgr.Unlock(f)
+	vw := noView
 
 	acts := parseActs(p)
 	uok := make([]int, 0, len(acts))
@@ -416,10 +425,12 @@ func (w *world) doRpc1(tr *vhlib.Trace, p opLine, rc racer) {
 		updater, err = w.mgr.ReviseContract(f)
 	})
 	if panicked || err != nil {
-		tr.Line(p.Raw, fmt.Sprintf("lock=ok res=%s fired=0 uok=[] %s", classify(panicked, msg, false, err), w.cobs("", id, false)))
+		tr.Line(p.Raw, fmt.Sprintf("lock=ok res=%s fired=0 uok=[] %s %s", classify(panicked, msg, false, err), vw, w.cobs("", id, false)))
 		return
 	}
 	defer updater.Close()
+	// the session's view: the revision Lock returned and the roots the updater starts from
+	vw = w.view(locked.Revision.RevisionNumber, locked.Revision.Filesize, locked.Revision.FileMerkleRoot, updater.SectorRoots())
 	anyRejected := false
 	for _, a := range acts {
 		var aerr error
@@ -436,7 +447,7 @@ func (w *world) doRpc1(tr *vhlib.Trace, p opLine, rc racer) {
 			}
 		})
 		if pk {
-			tr.Line(p.Raw, fmt.Sprintf("lock=ok res=panic:%s fired=0 uok=%s %s", pm, vhlib.FmtList(uok), w.cobs("", id, false)))
+			tr.Line(p.Raw, fmt.Sprintf("lock=ok res=panic:%s fired=0 uok=%s %s %s", pm, vhlib.FmtList(uok), vw, w.cobs("", id, false)))
 			return
 		}
 		uok = append(uok, vhlib.B01(aerr == nil))
@@ -455,35 +466,44 @@ func (w *world) doRpc1(tr *vhlib.Trace, p opLine, rc racer) {
 		res, fired = w.faulted(argInt(p, "fault", -1), func() error { return updater.Commit(rev, contracts.Usage{}) })
 	}
 	tr.Count("rpc1:" + strings.SplitN(res, ":", 2)[0])
-	tr.Line(p.Raw, fmt.Sprintf("lock=ok res=%s fired=%d uok=%s %s", res, vhlib.B01(fired), vhlib.FmtList(uok), w.cobs("", id, false)))
+	tr.Line(p.Raw, fmt.Sprintf("lock=ok res=%s fired=%d uok=%s %s %s", res, vhlib.B01(fired), vhlib.FmtList(uok), vw, w.cobs("", id, false)))
 }
 
-func (w *world) doLock1(tr *vhlib.Trace, p opLine) {
+func (w *world) doLock1(tr *vhlib.Trace, p opLine, rc racer) {
 	id := p.Int("c")
 	f := w.fcid(id, false)
-	_, err := w.mgr.Lock(context.Background(), f)
-	lock := "ok"
+	locked, err := w.mgr.Lock(context.Background(), f)
+	lock, vw := "ok", noView
 	if err != nil {
 		lock = "refused"
 	} else {
-		w.mgr.Unlock(f)
+		rc.start()
+		// what a session would work on: the revision returned and the roots of a fresh updater
+		if u, uerr := w.mgr.ReviseContract(f); uerr == nil {
+			vw = w.view(locked.Revision.RevisionNumber, locked.Revision.Filesize, locked.Revision.FileMerkleRoot, u.SectorRoots())
+			u.Close()
+		}
+		defer rc.wait()
+		defer w.mgr.Unlock(f)
 	}
 	tr.Count("lock1:" + lock)
-	tr.Line(p.Raw, fmt.Sprintf("lock=%s %s", lock, w.cobs("", id, false)))
+	tr.Line(p.Raw, fmt.Sprintf("lock=%s %s %s", lock, vw, w.cobs("", id, false)))
 }
 
-func (w *world) doLock2(tr *vhlib.Trace, p opLine) {
+func (w *world) doLock2(tr *vhlib.Trace, p opLine, rc racer) {
 	id := p.Int("c")
 	f := w.fcid(id, true)
 	st, unlock, err := w.mgr.LockV2Contract(f)
 	if err != nil {
-		tr.Line(p.Raw, fmt.Sprintf("lk=notfound renewed=0 revisable=0 roots=[] %s", w.cobs("", id, true)))
+		tr.Line(p.Raw, fmt.Sprintf("lk=notfound renewed=0 revisable=0 %s %s", noView, w.cobs("", id, true)))
 		return
 	}
-	unlock()
+	rc.start()
+	defer rc.wait()
+	defer unlock()
 	tr.Count(fmt.Sprintf("lock2:renewed%d", vhlib.B01(st.Renewed)))
-	tr.Line(p.Raw, fmt.Sprintf("lk=ok renewed=%d revisable=%d roots=%s %s", vhlib.B01(st.Renewed), vhlib.B01(st.Revisable),
-		vhlib.FmtList(w.rootIDs(st.Roots)), w.cobs("", id, true)))
+	tr.Line(p.Raw, fmt.Sprintf("lk=ok renewed=%d revisable=%d %s %s", vhlib.B01(st.Renewed), vhlib.B01(st.Revisable),
+		w.view(st.Revision.RevisionNumber, st.Revision.Filesize, st.Revision.FileMerkleRoot, st.Roots), w.cobs("", id, true)))
 }
 
 func (w *world) listArg(p opLine, k string) []types.Hash256 {
@@ -501,7 +521,7 @@ func (w *world) doRev2(tr *vhlib.Trace, p opLine, rc racer) {
 	st, unlock, err := w.mgr.LockV2Contract(f)
 	if err != nil {
 		tr.Count("rev2:notfound")
-		tr.Line(p.Raw, fmt.Sprintf("lk=notfound renewed=0 revisable=0 res=none fired=0 %s", w.cobs("", id, true)))
+		tr.Line(p.Raw, fmt.Sprintf("lk=notfound renewed=0 revisable=0 res=none fired=0 %s %s", noView, w.cobs("", id, true)))
 		return
 	}
 	rc.start()
@@ -529,8 +549,8 @@ func (w *world) doRev2(tr *vhlib.Trace, p opLine, rc racer) {
 		return w.mgr.ReviseV2Contract(f, rev, newRoots, proto4.Usage{})
 	})
 	tr.Count("rev2:" + strings.SplitN(res, ":", 2)[0])
-	tr.Line(p.Raw, fmt.Sprintf("lk=ok renewed=%d revisable=%d res=%s fired=%d %s", vhlib.B01(st.Renewed), vhlib.B01(st.Revisable),
-		res, vhlib.B01(fired), w.cobs("", id, true)))
+	tr.Line(p.Raw, fmt.Sprintf("lk=ok renewed=%d revisable=%d res=%s fired=%d %s %s", vhlib.B01(st.Renewed), vhlib.B01(st.Revisable),
+		res, vhlib.B01(fired), w.view(st.Revision.RevisionNumber, st.Revision.Filesize, st.Revision.FileMerkleRoot, st.Roots), w.cobs("", id, true)))
 }
 
 // doRenew1: RHP2 renew-and-clear / RHP3 renew at manager level: Lock, RenewContract with the
@@ -543,13 +563,14 @@ func (w *world) doRenew1(tr *vhlib.Trace, p opLine, rc racer) {
 	existing, err := w.mgr.Lock(context.Background(), f)
 	if err != nil {
 		tr.Count("renew1:refused")
-		tr.Line(p.Raw, fmt.Sprintf("lock=refused res=none fired=0 refok=1 %s %s", w.cobs("", id, false), w.cobs("n", nid, false)))
+		tr.Line(p.Raw, fmt.Sprintf("lock=refused res=none fired=0 refok=1 %s %s %s", noView, w.cobs("", id, false), w.cobs("n", nid, false)))
 		return
 	}
 	rc.start()
 	defer rc.wait()
 	defer w.mgr.Unlock(f)
 	before := w.persisted(f, false) // the list the renewal hands over: every root of it must stay referenced
+	vw := w.view(existing.Revision.RevisionNumber, existing.Revision.Filesize, existing.Revision.FileMerkleRoot, w.mgr.SectorRoots(f))
 
 	clearing := existing
 	clearing.Revision.RevisionNumber = types.MaxRevisionNumber
@@ -586,7 +607,7 @@ func (w *world) doRenew1(tr *vhlib.Trace, p opLine, rc racer) {
 		w.register(nid, nf)
 	}
 	tr.Count("renew1:" + strings.SplitN(res, ":", 2)[0])
-	tr.Line(p.Raw, fmt.Sprintf("lock=ok res=%s fired=%d refok=%d %s %s", res, vhlib.B01(fired), w.refok(before),
+	tr.Line(p.Raw, fmt.Sprintf("lock=ok res=%s fired=%d refok=%d %s %s %s", res, vhlib.B01(fired), w.refok(before), vw,
 		w.cobs("", id, false), w.cobs("n", nid, false)))
 }
 
@@ -597,17 +618,18 @@ func (w *world) doRenew2(tr *vhlib.Trace, p opLine, rc racer) {
 	st, unlock, err := w.mgr.LockV2Contract(f)
 	if err != nil {
 		tr.Count("renew2:notfound")
-		tr.Line(p.Raw, fmt.Sprintf("lk=notfound renewed=0 revisable=0 res=none fired=0 refok=1 %s %s", w.cobs("", id, true), w.cobs("n", nid, true)))
+		tr.Line(p.Raw, fmt.Sprintf("lk=notfound renewed=0 revisable=0 res=none fired=0 refok=1 %s %s %s", noView, w.cobs("", id, true), w.cobs("n", nid, true)))
 		return
 	}
 	rc.start()
 	defer rc.wait()
 	defer unlock()
+	vw := w.view(st.Revision.RevisionNumber, st.Revision.Filesize, st.Revision.FileMerkleRoot, st.Roots)
 	if (st.Renewed || !st.Revisable) && p.Int("force") != 1 {
 		// the RPC refuses before touching the manager
 		tr.Count("renew2:refused")
-		tr.Line(p.Raw, fmt.Sprintf("lk=ok renewed=%d revisable=%d res=none fired=0 refok=1 %s %s", vhlib.B01(st.Renewed), vhlib.B01(st.Revisable),
-			w.cobs("", id, true), w.cobs("n", nid, true)))
+		tr.Line(p.Raw, fmt.Sprintf("lk=ok renewed=%d revisable=%d res=none fired=0 refok=1 %s %s %s", vhlib.B01(st.Renewed), vhlib.B01(st.Revisable),
+			vw, w.cobs("", id, true), w.cobs("n", nid, true)))
 		return
 	}
 	before := w.persisted(f, true) // the list the renewal hands over: every root of it must stay referenced
@@ -645,8 +667,8 @@ func (w *world) doRenew2(tr *vhlib.Trace, p opLine, rc racer) {
 	}
 	w.mu.Unlock()
 	tr.Count("renew2:" + strings.SplitN(res, ":", 2)[0])
-	tr.Line(p.Raw, fmt.Sprintf("lk=ok renewed=%d revisable=%d res=%s fired=%d refok=%d %s %s", vhlib.B01(st.Renewed), vhlib.B01(st.Revisable),
-		res, vhlib.B01(fired), w.refok(before), w.cobs("", id, true), w.cobs("n", nid, true)))
+	tr.Line(p.Raw, fmt.Sprintf("lk=ok renewed=%d revisable=%d res=%s fired=%d refok=%d %s %s %s", vhlib.B01(st.Renewed), vhlib.B01(st.Revisable),
+		res, vhlib.B01(fired), w.refok(before), vw, w.cobs("", id, true), w.cobs("n", nid, true)))
 }
 
 func (w *world) doRestart(tr *vhlib.Trace, p opLine) {
@@ -692,12 +714,28 @@ func (w *world) run(tr *vhlib.Trace, ops []opLine) {
 					start: func() {
 						started = true
 						wg.Add(1)
+						returned := make(chan struct{})
 						go func() {
 							defer wg.Done()
+							defer close(returned)
 							// blocks on the contract lock held by the first op; its line is written after the first one's
 							w.exec(out, next, noRace())
 						}()
-						time.Sleep(300 * time.Microsecond)
+						// the holder goes on only when the second caller is queued in the locker (lock.n >= 2),
+						// or has returned without queueing, so the hand-off does not depend on timing
+						f := w.fcid(pc, p.Op == "rev2" || p.Op == "renew2" || p.Op == "lock2")
+						deadline := time.Now().Add(2 * time.Second)
+						for contracts.VerifSectorsLockQueue(w.mgr, f) < 2 && time.Now().Before(deadline) {
+							select {
+							case <-returned:
+								deadline = time.Now()
+							default:
+								time.Sleep(20 * time.Microsecond)
+							}
+						}
+						if contracts.VerifSectorsLockQueue(w.mgr, f) >= 2 {
+							tr.Count("queued-behind-holder")
+						}
 					},
 					wait: func() {},
 				}
@@ -731,9 +769,9 @@ func (w *world) exec(tr *vhlib.Trace, p opLine, rc racer) {
 	case "rpc1":
 		w.doRpc1(tr, p, rc)
 	case "lock1":
-		w.doLock1(tr, p)
+		w.doLock1(tr, p, rc)
 	case "lock2":
-		w.doLock2(tr, p)
+		w.doLock2(tr, p, rc)
 	case "rev2":
 		w.doRev2(tr, p, rc)
 	case "renew1":
@@ -1001,6 +1039,59 @@ func (g *gen) afterRenew(id, nid int, v2 bool) {
 	}
 }
 
+// contended: a second caller queues behind a lock holder that revises the roots, fails a revision, renews or
+// only holds the lock; what the waiter is handed when it acquires the lock is part of its line (v* fields).
+func (g *gen) contended(v2 bool) {
+	id, ok := g.pick(v2)
+	if !ok {
+		return
+	}
+	var renews [][2]int
+	mk := func(kind int) string {
+		switch kind {
+		case 0: // a revision that changes the roots
+			if v2 {
+				return g.rev2Line(id) + " fault=-1"
+			}
+			return g.rpc1Line(id) + " fault=-1"
+		case 1: // a revision that fails: root not stored, or a statement failure
+			if v2 {
+				if g.r.Chance(1, 2) {
+					return fmt.Sprintf("rev2 c=%d roots=%s rn=%d fsd=0 cap=%d badroot=0 badsig=0 badkey=0 fault=-1", id,
+						vhlib.FmtList(append(g.memIDs(id, true), 901)), g.nextRn(id), g.memLen(id, true)+1)
+				}
+				return g.rev2Line(id) + fmt.Sprintf(" fault=%d", g.r.Intn(8))
+			}
+			if g.r.Chance(1, 2) {
+				return fmt.Sprintf("rpc1 c=%d acts=[a%d,a901] rn=%d abort=0 fault=-1", id, g.pickRoot(), g.nextRn(id))
+			}
+			return g.rpc1Line(id) + fmt.Sprintf(" fault=%d", g.r.Intn(8))
+		case 2: // a renewal
+			if g.gen[id] >= 5 {
+				if v2 {
+					return fmt.Sprintf("lock2 c=%d", id)
+				}
+				return fmt.Sprintf("lock1 c=%d", id)
+			}
+			line, nid := g.renewLine(id, v2)
+			renews = append(renews, [2]int{id, nid})
+			return line + " fault=-1"
+		default: // only the lock
+			if v2 {
+				return fmt.Sprintf("lock2 c=%d", id)
+			}
+			return fmt.Sprintf("lock1 c=%d", id)
+		}
+	}
+	holder := mk(vhlib.Pick(g.r, 0, 0, 0, 1, 1, 2, 3))
+	waiter := mk(vhlib.Pick(g.r, 0, 0, 1, 2, 3, 3, 3))
+	g.tr.Count("contended")
+	g.w.run(g.tr, []opLine{parseOp(holder + " race=1"), parseOp(waiter)})
+	for _, rn := range renews {
+		g.afterRenew(rn[0], rn[1], v2)
+	}
+}
+
 func (g *gen) pick(v2 bool) (int, bool) {
 	l := g.v1
 	if v2 {
@@ -1110,14 +1201,16 @@ func genHistory(t *testing.T, tr *vhlib.Trace, r *vhlib.Rand, n int, thorough bo
 				g.do(fmt.Sprintf("%s fault=%d", line, g.faultArg()))
 			}
 			g.afterRenew(id, nid, v2)
-		case x < 76:
+		case x < 73:
 			if id, ok := g.pick(false); ok {
 				g.do(fmt.Sprintf("lock1 c=%d", id))
 			}
-		case x < 82:
+		case x < 76:
 			if id, ok := g.pick(true); ok {
 				g.do(fmt.Sprintf("lock2 c=%d", id))
 			}
+		case x < 82:
+			g.contended(r.Chance(1, 2))
 		case x < 87:
 			g.do(fmt.Sprintf("restart reopen=%d", vhlib.B01(r.Chance(1, 2))))
 			g.allObs()
